@@ -22,6 +22,7 @@ import (
 	"sort"
 	"strings"
 	"testing"
+	"verif/plumb"
 
 	"github.com/wi1dcard/fingerproxy/pkg/fingerprint"
 	"github.com/wi1dcard/fingerproxy/pkg/metadata"
@@ -38,6 +39,17 @@ func TestCheck(t *testing.T) {
 	rep := ev.New("C01", "exploration")
 	defer rep.Write()
 	seamA(rep)
+	shard, of := mc.ShardFromEnv()
+	plumb.SeamB(t, rep, "C01", "X-JA3-Fingerprint", func(rec []byte) ([]string, bool) {
+		p, err := chello.Parse(rec)
+		if err != nil {
+			return nil, false
+		}
+		if p.HasSNI && (p.SNIListLen&0xff) < (p.SNIListLen>>8) {
+			return nil, false // D10 (known finding, reported by seam A)
+		}
+		return ja3ref.Admissible(p), true
+	}, shard, of)
 }
 
 // accepted is the domain rule (DESIGN §3 rule 1): the record is fed to a real
